@@ -81,7 +81,7 @@ def parallelLoopApply (v : OmpState → Bool) : Prog OmpState :=
 def ompLoopPinned (reprod : Bool) (v : OmpState → Bool) : Prog OmpState :=
   .prim (ompDeclare reprod) (.call (fun _ => parallelLoopApply v) .done)
 
-/-- `OMPLoopTrans.apply` with `fixes/C26-validate-before-mutation.patch`: validate first. -/
+/-- `OMPLoopTrans.apply` with the fix commits 50629ec / ef452d1 in /repo and `fixes/C26-arrayreduction-tmp-after-validate.patch`: validate first. -/
 def ompLoopFixed (reprod : Bool) (v : OmpState → Bool) : Prog OmpState :=
   validateThen v (.prim (ompDeclare reprod) (.call (fun _ => parallelLoopApply v) .done))
 
